@@ -80,3 +80,11 @@ def div_(a, b):
             return Sx(alg.pconst(q))
         return alg.const(a) / alg.const(b)
     return a / b
+
+
+def float_(x):
+    if type(x) is Sx and not x.is_const():
+        if x.im:
+            raise TypeError("float() argument must be real")
+        return x
+    return float(x)
